@@ -11,6 +11,9 @@ NOTE = ("Trusted base: the Go type checker (go/types), go/packages loading of /r
 
 # id -> (technique, level text, design ref)
 CLAIMS = {
+ "C35": ("complete enumeration of instruction types: Encode/Decode operand-sequence agreement, emit/decode helper byte widths, Opcode() injectivity and DecodeInstruction arm agreement (AST + go/types) + pinned opcode numbers + map-range classification + LEB128 sibling unification",
+         "Structural necessary conditions, finite and exhaustively enumerated: encoder and decoder of every instruction agree on operand kinds, order and byte widths, opcodes are unique, pinned and decoded to their own instruction, and compilation has no map-order or goroutine dependence.",
+         "DESIGN.md §4 C35"),
  "C17": ("table-row coherence of StringValueParsers / BigEndianBytesConverters + parse-primitive acceptance class per row (SSA reachability of strconv.ParseUint/ParseInt/big.SetString and sign guards) + sibling unification",
          "Structural necessary conditions: each parser/bytes-converter row names a single numeric type with its own width, rows exist for all number types, sign acceptance of fromString depends only on signedness (not width), and sibling byte conversions agree.",
          "DESIGN.md §4 C17"),
